@@ -216,10 +216,11 @@ def check_bb(
     if bb == cfg.entry_bb:
         assert len(bb.predecessors) == 0
         for x, use in bb.vars.used.items():
-            if (
-                x not in cfg.ass_before[bb]
-                and x not in globals
-                and x not in generic_params
+            # Following Python, a variable that is assigned somewhere in the function
+            # body is a local, even if a global with the same name exists
+            if x not in cfg.ass_before[bb] and (
+                x in cfg.assigned_somewhere
+                or (x not in globals and x not in generic_params)
             ):
                 raise GuppyError(VarNotDefinedError(use, x))
 
